@@ -1,10 +1,14 @@
 (* C04 -- with raw HTML off, output is well-formed and contains only renderer-made
-   markup.  Renderer side: statements for ALL token lists without html tokens.  Parser side,
+   markup.  END TO END ON THE MODEL (C04_render_safe, C04_render_inline_safe): with options.html
+   off and no highlight callback, for EVERY source, env, rule configuration (any core chain, any
+   block / inline rule subsets) and any value of the opaque dependencies, the string returned by
+   render / renderInline is a concatenation of chunks each of which is a fixed renderer literal,
+   "<tag" / "</tag" for one of 26 fixed tag names, or escapeHtml of data -- never a raw chunk.  Renderer side: statements for ALL token lists without html tokens.  Parser side,
    block half: for EVERY source and configuration the tag of every token the block parser
    appends comes from a fixed vocabulary of 19 names (or is empty), and html_block tokens exist
    only when options.html is on (C04_block_tags_from_vocabulary).  Only statements and [exact]. *)
 From MD Require Import Base.Py Base.Str Base.Opt Model.Token Model.Utils Model.Render Model.StateBlock Model.Block
-     Lemmas.EscapeLemmas Lemmas.RenderLemmas Lemmas.BlockKinds.
+     Model.Inline Model.Pipeline Lemmas.EscapeLemmas Lemmas.RenderLemmas Lemmas.BlockKinds Lemmas.InlineKinds Lemmas.PipelineSafe.
 
 (* for EVERY string: the escaped form contains no < > double-quote, and every & in it
    begins one of the four entities the escaper itself writes *)
@@ -50,3 +54,44 @@ Theorem C04_block_tags_from_vocabulary :
                 /\ Forall (fun t => In (ttag t) block_tags /\ (ttype t = nm_html_block -> c_html cfg = true)) seg.
 Proof. exact block_parse_tags. Qed.
 Print Assumptions C04_block_tags_from_vocabulary.
+
+(* the tag vocabulary of the whole parser: 19 block names, 7 inline names, and the empty tag *)
+Definition C04_all_tags : list str := all_tags.
+
+(* end to end: html off => nothing raw reaches the output of render *)
+Theorem C04_render_safe :
+  forall cfg reformat casefold linktext,
+    c_html (p_block cfg) = false -> ic_html (p_inline cfg) = false -> chains_sub (p_block cfg) ->
+    o_highlight (p_render cfg) = None ->
+    forall src env h env',
+      render_md cfg reformat casefold linktext src env = Ok (h, env') ->
+      exists cs, h = html_of cs /\ forallb (chunk_ok all_tags) cs = true.
+Proof. exact render_md_safe. Qed.
+Print Assumptions C04_render_safe.
+
+Theorem C04_render_inline_safe :
+  forall cfg reformat casefold linktext,
+    c_html (p_block cfg) = false -> ic_html (p_inline cfg) = false -> chains_sub (p_block cfg) ->
+    o_highlight (p_render cfg) = None ->
+    forall src env h env',
+      render_inline_md cfg reformat casefold linktext src env = Ok (h, env') ->
+      exists cs, h = html_of cs /\ forallb (chunk_ok all_tags) cs = true.
+Proof. exact render_inline_md_safe. Qed.
+Print Assumptions C04_render_inline_safe.
+
+(* the parser side on its own: every token of parse(src), and every child of an inline token, has a
+   vocabulary tag and is neither html_block nor html_inline *)
+Theorem C04_parse_tokens_from_vocabulary :
+  forall cfg reformat casefold linktext,
+    c_html (p_block cfg) = false -> ic_html (p_inline cfg) = false -> chains_sub (p_block cfg) ->
+    forall src env ts env',
+      parse cfg reformat casefold linktext src env = Ok (ts, env') -> Forall (ok_top all_tags) ts.
+Proof. exact parse_tokens_ok. Qed.
+Print Assumptions C04_parse_tokens_from_vocabulary.
+
+(* inline half on its own: the inline parser only ever leaves vocabulary tokens; html_inline needs options.html *)
+Theorem C04_inline_tokens_from_vocabulary :
+  forall cfg reformat casefold linktext src env tokens r,
+    Forall (V cfg) tokens -> inline_parse cfg reformat casefold linktext src env tokens = Ok r -> Forall (V cfg) r.
+Proof. exact inline_parse_kinds. Qed.
+Print Assumptions C04_inline_tokens_from_vocabulary.
